@@ -140,7 +140,24 @@ def strat_gs(draw):
 class _HProblem:
     """Everything derived from the reference model for one history spec."""
     def __init__(self, spec, ctx):
-        hs, ref, info = gh.replay(spec, ctx)
+        # solve - refine - solve: the space may be queried between the refinement steps of its history (smoothing sets,
+        # Dirichlet dofs, prolongators of the intermediate space); nothing of that may influence what the final space returns
+        probe = list(spec.get("probe") or [])
+        cnt = {"k": 0, "used": 0}
+
+        def on_step(hs_, ref_, info_):
+            k = cnt["k"]
+            cnt["k"] += 1
+            if not probe or not probe[k % len(probe)] or info_["calls"] == 0:
+                return
+            for strat in STRATEGIES:
+                ctx.sut(hs_.indices_to_smooth, strat, what="indices_to_smooth between refinements")
+            ctx.sut(hs_.dirichlet_dofs, what="dirichlet_dofs between refinements")
+            ctx.sut(hs_.virtual_hierarchy_prolongators, what="virtual_hierarchy_prolongators between refinements")
+            cnt["used"] += 1
+        hs, ref, info = gh.replay(spec, ctx, on_step=on_step if probe else None)
+        if cnt["used"] and info["calls"] >= 2:
+            ctx.flag("queried_between_refinements")
         self.hs, self.ref, self.info = hs, ref, info
         L = ref.trimmed_levels()
         self.L = L
@@ -309,6 +326,7 @@ def strat_mg(draw, driver=False):
         spec["f"][0] = 1.0
     spec["x0"] = [draw(st.integers(-8, 8)) / 4.0 for _ in range(13)]
     spec["smooth_steps"] = draw(st.sampled_from([1, 2, 2, 3]))
+    spec["probe"] = [draw(st.booleans()) for _ in range(len(spec["steps"]))]
     if driver:
         spec["strategy"] = draw(st.sampled_from(STRATEGIES))
         spec["smoother"] = draw(st.sampled_from(SMOOTHERS))
